@@ -184,12 +184,14 @@ int main(void) {
                     /* collect first, print after, so that "end"/"more" precedes the list as in the model's format */
                     static char buf[1 << 20]; size_t bl = 0; buf[0] = 0;
                     for (int i = 0; i < n; i++) {
-                        if (!qtreetbl_getnext(t, &o, true)) { ended = 1; break; }
+                        /* every third step asks for pointers into the table instead of copies (newmem=false): looked at at once, not freed */
+                        static unsigned stepno; bool nm = (++stepno % 3) != 0;
+                        if (!qtreetbl_getnext(t, &o, nm)) { ended = 1; break; }
                         FILE *m = fmemopen(buf + bl, sizeof buf - bl, "w");
                         if (!first) fputc(',', m); first = 0;
                         puthex(m, o.name, o.namesize); fputc('=', m); puthex(m, o.data, o.data ? o.datasize : 0);
                         bl += ftell(m); fclose(m);
-                        free(o.name); free(o.data);
+                        if (nm) { free(o.name); free(o.data); }
                         if (rk) { size_t sz = 0; void *d = qtreetbl_getobj(t, rk, rkn, &sz, true); free(d); d = qtreetbl_find_min(t, &sz); free(d); d = qtreetbl_find_max(t, &sz); free(d); (void)qtreetbl_size(t); }
                     }
                     printf(" %s %s", ended ? "end" : "more", buf);
